@@ -24,7 +24,7 @@ Import ListNotations.
    (lemma blas_regime_sound, below as T1b). *)
 Theorem lincomb_correct :
   forall (T : Type) (N : Num T) (F : NumField T)
-         (floating blas_dtype : bool) (f1 f2 fo : bool * bool)     (* dtype class; layout flags of x1, x2, out *)
+         (floating : bool) (blas_dtype : dtinfo) (f1 f2 fo : bool * bool)     (* dtype class; layout flags of x1, x2, out *)
          (a b : T) (i1 i2 io : nat) (s : store T),
   length (s i1) = length (s i2) -> length (s io) = length (s i1) ->
   exists s', lincomb_impl (fun u => u) floating blas_dtype [f1; f2; fo] a i1 b i2 io s = Ok s'
@@ -38,7 +38,7 @@ Print Assumptions lincomb_correct.
    true size on one period of periodic arrays) *)
 Theorem lincomb_correct_any_size :
   forall (T : Type) (N : Num T) (F : NumField T)
-         (floating blas_dtype : bool) (f1 f2 fo : bool * bool) (size : Z)
+         (floating : bool) (blas_dtype : dtinfo) (f1 f2 fo : bool * bool) (size : Z)
          (a b : T) (i1 i2 io : nat) (s : store T),
   length (s i1) = length (s i2) -> length (s io) = length (s i1) ->
   exists s', lincomb_impl_sz (fun u => u) floating blas_dtype [f1; f2; fo] size a i1 b i2 io s = Ok s'
@@ -47,21 +47,30 @@ Theorem lincomb_correct_any_size :
 Proof. exact @lincomb_impl_sz_correct. Qed.
 Print Assumptions lincomb_correct_any_size.
 
+(* T1a  the dtype premise, discharged by the regenerated _blas_is_applicable: BLAS-applicable implies a
+   dtype BLAS updates in place -- NATIVE byte order and type code f, d, F or D (the table _BLAS_DTYPES).
+   A test on the type code alone (dtype.char in 'fdFD') is translated but does not prove this. *)
+Theorem blas_applicable_implies_native_blas_dtype :
+  forall (d : dtinfo) (size : Z) (flags : list (bool * bool)),
+  blas_applicable true d size flags = true -> native_blas d = true.
+Proof. exact blas_applicable_native. Qed.
+
 (* T1b  the regenerated dispatch + _blas_is_applicable + ravel-order rule: whenever the BLAS
    branch is chosen, out.data.ravel(order) is a view of out and the dtype is a BLAS dtype,
    i.e. the in-place BLAS calls really update out. *)
 Theorem blas_branch_updates_in_place :
-  forall (size : Z) (floating blas_dtype : bool) (f1 f2 fo : bool * bool),
+  forall (size : Z) (floating : bool) (blas_dtype : dtinfo) (f1 f2 fo : bool * bool),
   regime_of size floating (blas_applicable true blas_dtype size [f1; f2; fo]) = Blas ->
   bi_view (@blas_info blas_dtype [f1; f2; fo]) = true /\ bi_call (@blas_info blas_dtype [f1; f2; fo]) = true.
 Proof. exact blas_regime_sound. Qed.
 Print Assumptions blas_branch_updates_in_place.
 Example blas_branch_is_reachable :
-  regime_of 50000 true (blas_applicable true true 50000 [(true, false); (true, false); (true, false)]) = Blas
-  /\ regime_of 50000 true (blas_applicable true true 50000 [(true, false); (true, false); (false, false)]) = Fallback
-  /\ regime_of 49999 true (blas_applicable true true 49999 [(true, true); (true, true); (true, true)]) = Fallback
-  /\ regime_of 99 true (blas_applicable true true 99 [(true, true); (true, true); (true, true)]) = Direct
-  /\ regime_of 50000 true (blas_applicable true false 50000 [(true, true); (true, true); (true, true)]) = Fallback.
+  regime_of 50000 true (blas_applicable true (mkdt 100 true) 50000 [(true, false); (true, false); (true, false)]) = Blas
+  /\ regime_of 50000 true (blas_applicable true (mkdt 100 true) 50000 [(true, false); (true, false); (false, false)]) = Fallback
+  /\ regime_of 49999 true (blas_applicable true (mkdt 100 true) 49999 [(true, true); (true, true); (true, true)]) = Fallback
+  /\ regime_of 99 true (blas_applicable true (mkdt 100 true) 99 [(true, true); (true, true); (true, true)]) = Direct
+  /\ regime_of 50000 true (blas_applicable true (mkdt 101 true) 50000 [(true, true); (true, true); (true, true)]) = Fallback   (* float16 *)
+  /\ regime_of 50000 true (blas_applicable true (mkdt 100 false) 50000 [(true, true); (true, true); (true, true)]) = Fallback. (* '>f8' *)
 Proof. vm_compute. repeat split. Qed.
 
 (* the hypotheses are satisfiable: the reals and the complex numbers are instances *)
@@ -73,7 +82,7 @@ Proof. exact (NumField_R, NumField_C). Qed.
    field (integers embed) -- exact whenever a*x1 + b*x2 is representable. *)
 Theorem lincomb_nonfloating_correct :
   forall (T : Type) (N : Num T) (F : NumField T) (cast : T -> T)
-         (blas_dtype : bool) (flags : list (bool * bool)) (a b : T) (i1 i2 io : nat) (s : store T),
+         (blas_dtype : dtinfo) (flags : list (bool * bool)) (a b : T) (i1 i2 io : nat) (s : store T),
   length (s i1) = length (s i2) -> length (s io) = length (s i1) ->
   exists s', lincomb_impl cast false blas_dtype flags a i1 b i2 io s = Ok s'
           /\ s' io = map cast (vlin a (s i1) b (s i2))
@@ -105,7 +114,7 @@ Print Assumptions lincomb_ignores_old_out.
    e.g. x + y, a * x, x.copy() never depend on what space.element() left in the fresh output *)
 Theorem lincomb_impl_ignores_old_out :
   forall (T : Type) (N : Num T) (F : NumField T)
-         (floating blas_dtype : bool) (f1 f2 fo : bool * bool) (a b : T) (i1 i2 io : nat)
+         (floating : bool) (blas_dtype : dtinfo) (f1 f2 fo : bool * bool) (a b : T) (i1 i2 io : nat)
          (s : store (option T)) (x1 x2 : list T),
   s i1 = map Some x1 -> s i2 = map Some x2 ->
   length x1 = length x2 -> length (s io) = length x1 ->
@@ -199,7 +208,7 @@ Proof. exact calls_are_identity. Qed.
 Theorem data_operand_redispatches_to_same_operator : forall o : opname, redispatch o = o.
 Proof. exact redispatch_id. Qed.
 Theorem data_operand_program_is_element_program :
-  forall (T : Type) (N : Num T) (flg : nat -> bool * bool) (bdtf : nat -> bool) (icast : T -> T)
+  forall (T : Type) (N : Num T) (flg : nat -> bool * bool) (bdtf : nat -> dtinfo) (icast : T -> T)
          (sp : space) (o : opname) (self wrapped tmp : elem),
   w_data flg bdtf icast sp o self wrapped tmp = w_elem flg bdtf icast sp o self wrapped tmp.
 Proof. exact @w_data_is_w_elem. Qed.
@@ -221,7 +230,7 @@ Proof. exact @divide_old_out. Qed.
 
 Theorem pspace_lincomb_correct :
   forall (T : Type) (N : Num T) (F : NumField T)
-         (flg : nat -> bool * bool) (bdtf : nat -> bool) (icast : T -> T)
+         (flg : nat -> bool * bool) (bdtf : nat -> dtinfo) (icast : T -> T)
          (sp : space) (a b : T) (x1 x2 out : elem) (s : store T),
   conf sp x1 -> conf sp x2 -> conf sp out ->
   wf (quads sp x1 x2 out) -> lens_ok s (quads sp x1 x2 out) ->
@@ -303,7 +312,7 @@ Qed.
 From Verif Require Import C01.ProofsWrap.
 Section Operators.
 Context (T : Type) (N : Num T) (F : NumField T)
-        (flg : nat -> bool * bool) (bdtf : nat -> bool) (icast : T -> T).
+        (flg : nat -> bool * bool) (bdtf : nat -> dtinfo) (icast : T -> T).
 Notation sp := (SLeaf true).
 Local Open Scope num_scope.
 
@@ -415,7 +424,7 @@ Print Assumptions op_add_scalar.
    temporaries changes.  By induction on the recursion depth and on the loop. *)
 Theorem op_ipow :
   forall (T : Type) (N : Num T) (F : NumField T)
-         (flg : nat -> bool * bool) (bdtf : nat -> bool) (icast : T -> T)
+         (flg : nat -> bool * bool) (bdtf : nat -> dtinfo) (icast : T -> T)
          (fuel p : nat) (x t o : nat) (s : store T),
   (p < fuel)%nat -> t <> x -> o <> x -> length (s o) = length (s x) ->
   exists s', w_ipow flg bdtf icast fuel (fun a b => w_copy_leaf (leaf_id a) (leaf_id b))
@@ -441,7 +450,7 @@ Proof. exact wf_fresh_elem. Qed.
    nothing but the leaves of t changes -- in particular x and y. *)
 Theorem nested_add :
   forall (T : Type) (N : Num T) (F : NumField T)
-         (flg : nat -> bool * bool) (bdtf : nat -> bool) (icast : T -> T)
+         (flg : nat -> bool * bool) (bdtf : nat -> dtinfo) (icast : T -> T)
          (sp : space) (x y t : elem) (s : store T),
   conf sp x -> conf sp y -> conf sp t ->
   NoDup (flat t) -> (forall i, In i (flat t) -> ~ In i (flat x) /\ ~ In i (flat y)) ->
@@ -458,7 +467,7 @@ Print Assumptions nested_add.
    with x): every leaf of x becomes the entry-wise sum of the INITIAL leaves; nothing else changes. *)
 Theorem nested_iadd :
   forall (T : Type) (N : Num T) (F : NumField T)
-         (flg : nat -> bool * bool) (bdtf : nat -> bool) (icast : T -> T)
+         (flg : nat -> bool * bool) (bdtf : nat -> dtinfo) (icast : T -> T)
          (sp : space) (x y : elem) (s : store T),
   conf sp x -> conf sp y -> NoDup (flat x) ->
   (forall q q', In q (quads sp x y x) -> In q' (quads sp x y x) -> q_x2 q' = q_out q -> q_out q' = q_out q) ->
@@ -479,7 +488,7 @@ Print Assumptions nested_iadd.
 From Coq Require Import QArith Qreals.
 From Verif Require Import C01.Transfer.
 Theorem lincomb_executed_model_is_rational_restriction :
-  forall (castq : Q -> Q) (castr : R -> R) (floating blas_dtype : bool) (flags : list (bool * bool))
+  forall (castq : Q -> Q) (castr : R -> R) (floating : bool) (blas_dtype : dtinfo) (flags : list (bool * bool))
          (size : Z) (a b : Q) (x1 x2 out : nat) (sq : store Q) (sr : store R),
   (forall q, Q2R (castq q) = castr (Q2R q)) -> sim sq sr ->
   osim (lincomb_impl_sz castq floating blas_dtype flags size a x1 b x2 out sq)
@@ -491,7 +500,7 @@ Print Assumptions lincomb_executed_model_is_rational_restriction.
    program (x + y, x -= c, c / x, ...; [l] ranges over all programs) -- division is total on both
    sides, so no side condition *)
 Theorem operator_programs_executed_model_is_rational_restriction :
-  forall (flg : nat -> bool * bool) (bdtf : nat -> bool) (icq : Q -> Q) (icr : R -> R),
+  forall (flg : nat -> bool * bool) (bdtf : nat -> dtinfo) (icq : Q -> Q) (icr : R -> R),
   (forall q, Q2R (icq q) = icr (Q2R q)) ->
   forall (sp : space) (l : list wstmt) (self other : elem) (c : Q) (tmp : elem) (sq : store Q) (sr : store R),
   sim sq sr ->
